@@ -2,4 +2,6 @@
 EXTENDS ClientMsg, Json, SequencesExt
 Shapes == {[prefix |-> p, nfields |-> n, last |-> l, nl |-> b] : p \in MsgPrefixes, n \in 1..MaxFields, l \in LastFields, b \in BOOLEAN}
 ASSUME ndJsonSerialize("c16_cases.ndjson", SetToSeq(Shapes))
+AggCases == {[samples |-> a.samples, parts |-> a.parts, trail |-> a.trail, accepted |-> AggAccepted(a), counted |-> AggCounted(a)] : a \in AggShapes(3)}
+ASSUME ndJsonSerialize("c16_agg.ndjson", SetToSeq(AggCases))
 ===============================================================================
